@@ -74,3 +74,36 @@ Proof.
   exists [120], {| ha_dims := [4]; ha_elems := [0; 1; 2; 3] |}. eexists.
   split; [vm_compute; reflexivity|]. vm_compute. discriminate.
 Qed.
+
+(** ** A well-formed operation sequence (non-vacuity of the refinement theorem) *)
+From OW Require Import IO.IoSeqProofs.
+
+Definition seq_example : list (@sop Z) :=
+  [ SWrite nm_ga [[103]; [97]] arr23;
+    SWriteSlice nm_ga [[103]; [97]] {| ha_dims := [1; 2]; ha_elems := [7; 8] |} [1; 1];
+    SLoad nm_ga [[103]; [97]] (Some [None; Some [0; 7; 2]]);
+    SCreate nm_ga [[103]; [97]] [2; 3];
+    SShape nm_ga [[103]; [97]] ].
+
+Lemma seq_example_ok : sops_ok id_codec (af_empty (V:=Z)) seq_example.
+Proof.
+  unfold seq_example. simpl sops_ok.
+  split; [split; [exact nm_ga_plain | split; [exact arr23_wf | discriminate]]|].
+  split.
+  { split; [exact nm_ga_plain|]. split.
+    - unfold arr_wf, u64. simpl. repeat split; try discriminate; repeat constructor; lia.
+    - split; [reflexivity|]. split; [unfold u64; repeat constructor; lia|].
+      intros x E. vm_compute in E. inversion E; subst. unfold block_fits. simpl. repeat constructor; lia. }
+  split.
+  { split; [exact nm_ga_plain|]. intros x l E1 E2 _. vm_compute in E1. inversion E1; subst. inversion E2; subst.
+    simpl. repeat constructor; unfold u64; lia. }
+  split; [split; [exact nm_ga_plain | split; [discriminate | unfold u64; repeat constructor; lia]]|].
+  split; [exact nm_ga_plain | exact I].
+Qed.
+
+Example seq_example_run :
+  snd (a_run id_codec (af_empty (V:=Z)) seq_example)
+  = [ObsUnit (IoRet (Some tt) false); ObsUnit (IoRet (Some tt) false);
+     ObsArr (IoRet (Some {| ha_dims := [2; 2]; ha_elems := [10; 12; 20; 8] |}) false);
+     ObsUnit (IoRet (Some tt) false); ObsShape (IoRet (Some [2; 3]) false)].
+Proof. vm_compute. reflexivity. Qed.
